@@ -15,7 +15,6 @@ package host
 
 //@ func (*Set).Random
 //@   prop C03 C15 C07
-//@   requires set != nil
 //@   modifies nothing
 //@   onlycalls RLock RUnlock (*Set).healthy Intn
 //@   ensures @only-a-host-of-the-preferred-usable-tier-is-selected result != nil ==> has(ite(len(set.healthyMain) == 0, set.healthyBackup, set.healthyMain), result.Addr) || exists a string :: has(ite(len(set.healthyMain) == 0, set.healthyBackup, set.healthyMain), a) && ite(len(set.healthyMain) == 0, set.healthyBackup, set.healthyMain)[a] == result
